@@ -363,6 +363,36 @@ def run(ctx: Ctx):
                           {"cloud_model": cfgh.simulation.cloud_model.model_dump(), "log_nu_energy": float(cfgh.simulation.spectrum.log_nu_energy), "thrown": 300, "seed": seedh,
                            "rows_outside_the_window": int(len(out_h)), "row": r0, "stored_numPEs": float(th["numPEs"][r0]), "recomputed_numPEs": pe0,
                            "altDec": float(ah[r0]), "init_lat": float(th["init_lat"][r0]), "init_lon": float(th["init_lon"][r0])})
+    # (g'') the same in Target mode with the detector away from (0, 0): every row is evaluated under the cloud of its own stored site
+    cfgt = make_cfg("Target", "mono", "map", True, False, 525.0, 1500, month=7)
+    cfgt.detector.initial_position.latitude = float(np.radians(24.0))
+    cfgt.detector.initial_position.longitude = float(np.radians(108.0))
+    cfgt.simulation.target.source_RA = float(rng.uniform(0.0, 6.0))
+    seedt = int(rng.integers(1, 2 ** 31))
+    try:
+        tt = run_compute(cfgt, seedt, "synchronous")
+    except Exception as e:  # noqa
+        tt = None
+        ctx.notes.append(f"target cloud-map run raised {type(e).__name__}: {str(e)[:80]}")
+    if tt is not None and len(tt) and "numPEs" in tt.colnames:
+        rows_t = np.unique(rng.integers(0, len(tt), 30)).astype(int)
+        eas_t, cl_t = EAS(cfgt), CloudTopHeight(cfgt)
+        badt = []
+        with dask.config.set(scheduler="synchronous"):
+            for r in rows_t:
+                pe1, ct1 = eas_t(np.asarray(tt["beta_rad"])[r:r + 1], np.asarray(tt["altDec"])[r:r + 1], np.asarray(tt["showerEnergy"])[r:r + 1],
+                                 np.asarray(tt["init_lat"])[r:r + 1], np.asarray(tt["init_lon"])[r:r + 1], cloudf=cl_t)
+                if not (close(float(pe1[0]), float(tt["numPEs"][r]), 1e-6, 1e-12) and close(float(ct1[0]), float(tt["costhetaChEff"][r]), 1e-9)):
+                    badt.append((int(r), float(pe1[0])))
+        ctx.case(("target-map-run", seedt), None, n=len(rows_t))
+        ctx.count("target-map-run-rows-rechecked", len(rows_t))
+        if badt:
+            r0, pe0 = badt[0]
+            ctx.violation("compute", "optical-columns-not-of-their-row",
+                          f"Target mode under the cloud map, detector at (24 deg, 108 deg): numPEs/costhetaChEff of {len(badt)} of {len(rows_t)} sampled rows are not what the optical stage gives for that row under the cloud of its own stored ground site (first: row {r0})",
+                          {"cloud_model": cfgt.simulation.cloud_model.model_dump(), "seed": seedt, "source_RA": float(cfgt.simulation.target.source_RA), "row": r0,
+                           "stored_numPEs": float(tt["numPEs"][r0]), "recomputed_numPEs": pe0, "init_lat": float(tt["init_lat"][r0]), "init_lon": float(tt["init_lon"][r0]),
+                           "cloud_top_at_site_km": float(cl_t(float(tt["init_lat"][r0]), float(tt["init_lon"][r0])))})
     # (e) zero survivors
     for mode in ("Diffuse", "Target"):
         cfg0 = make_cfg(mode, "mono", "none", True, True, 525.0, 0)
